@@ -3,7 +3,7 @@ import Rare.Proofs.F64Arith
 import Rare.Proofs.C07Mode
 /-!
 C07, numerical aggregator over the software binary64 model (`Model/C07NumF64.lean`):
-counting, min/max (IEEE comparisons against the `±MaxFloat64` sentinels), `Analyze` sorting with Go's
+counting, min/max (IEEE comparisons, starting at `±Inf`), `Analyze` sorting with Go's
 NaN-first order, nearest-rank `Median` / `Quantile`, `Mode`.  The arithmetic part (exact runs, mean between
 min and max) is in `C07NumF64Arith.lean`.
 -/
@@ -123,8 +123,8 @@ theorem sameF_iff (x y : F64) : sameF x y = true ↔ skey x = skey y := by
   unfold sameF skey
   cases hx : x.isNaN <;> cases hy : y.isNaN <;> simp [eq_iff_key, hx, hy] <;> omega
 
-theorem isNaN_maxF64 : maxF64.isNaN = false := by decide
-theorem isNaN_negMaxF64 : (F64.neg maxF64).isNaN = false := by decide
+theorem isNaN_posInf : posInf.isNaN = false := by decide
+theorem isNaN_negInf : negInf.isNaN = false := by decide
 
 /-! ### Min / Max -/
 
@@ -635,66 +635,67 @@ theorem max_unchanged (keep : Bool) (l : List F64) : ∀ s : NumF, (∀ y ∈ l,
     have e : (NumF.samplef keep s x).max = s.max := by rw [samplef_max, hx]; rfl
     rw [List.foldl_cons, ih _ (fun y hy => by rw [e]; exact h y (by simp [hy])), e]
 
-theorem key_maxF64 : maxF64.key = 9218868437227405311 := by decide
-theorem key_negMaxF64 : (F64.neg maxF64).key = -9218868437227405311 := by decide
+theorem key_posInf : posInf.key = 9218868437227405312 := by decide
+theorem key_negInf : negInf.key = -9218868437227405312 := by decide
 
 theorem finite_key_bounds {x : F64} (h : x.isFinite = true) :
     -9218868437227405311 ≤ x.key ∧ x.key ≤ 9218868437227405311 := by
   rw [isFinite_iff] at h
   unfold key; split <;> omega
 
-/-- For a non-empty list of finite samples `Min()` / `Max()` are samples. -/
-theorem minmax_mem_of_finite (keep : Bool) (l : List F64) (hne : l ≠ []) (hf : ∀ x ∈ l, x.isFinite = true) :
+theorem not_nan_key_bounds {x : F64} (h : x.isNaN = false) :
+    -9218868437227405312 ≤ x.key ∧ x.key ≤ 9218868437227405312 := by
+  simp [isNaN] at h
+  unfold key; split <;> omega
+
+/-- As soon as one sample is not NaN, `Min()` / `Max()` are samples. -/
+theorem minmax_mem (keep : Bool) (l : List F64) (hex : ∃ x ∈ l, x.isNaN = false) :
     (runFv keep l).min ∈ l ∧ (runFv keep l).max ∈ l := by
-  have mm := minmax_fold keep l NumF.new isNaN_maxF64 isNaN_negMaxF64
+  have mm := minmax_fold keep l NumF.new isNaN_posInf isNaN_negInf
   simp only [] at mm
   obtain ⟨_, _, _, _, _, a6, _, _, _, a10⟩ := mm
-  have e1 : NumF.new.min = maxF64 := rfl
-  have e2 : NumF.new.max = F64.neg maxF64 := rfl
+  have e1 : NumF.new.min = posInf := rfl
+  have e2 : NumF.new.max = negInf := rfl
   rw [e1] at a6; rw [e2] at a10
+  obtain ⟨x, hx, hxn⟩ := hex
+  have hb := not_nan_key_bounds hxn
   refine ⟨?_, ?_⟩
-  · by_cases hex : ∃ y ∈ l, F64.lt y maxF64 = true
-    · exact a6 hex
+  · by_cases hlt : ∃ y ∈ l, F64.lt y posInf = true
+    · exact a6 hlt
     · have hall : ∀ y ∈ l, F64.lt y NumF.new.min = false := by
         intro y hy
         cases h : F64.lt y NumF.new.min
         · rfl
-        · exact absurd ⟨y, hy, h⟩ hex
-      have hmin : (runFv keep l).min = maxF64 := min_unchanged keep l NumF.new hall
-      obtain ⟨y, l', rfl⟩ := List.exists_cons_of_ne_nil hne
-      have hy := hf y (by simp)
-      have hk := finite_key_bounds hy
-      have hlt := hall y (by simp)
-      rw [e1] at hlt
-      have : ¬ (y.key < maxF64.key) := by
+        · exact absurd ⟨y, hy, h⟩ hlt
+      have hmin : (runFv keep l).min = posInf := min_unchanged keep l NumF.new hall
+      have hx2 := hall x hx
+      rw [e1] at hx2
+      have : ¬ (x.key < posInf.key) := by
         intro hk2
-        have := (lt_iff_key y maxF64).mpr ⟨not_nan_of_finite hy, isNaN_maxF64, hk2⟩
-        rw [this] at hlt; cases hlt
-      rw [key_maxF64] at this
-      have hyk : y.key = maxF64.key := by rw [key_maxF64]; omega
-      have : y = maxF64 := eq_of_key_eq hyk (by rw [hyk, key_maxF64]; decide)
-      rw [hmin, ← this]; simp
-  · by_cases hex : ∃ y ∈ l, F64.lt (F64.neg maxF64) y = true
-    · exact a10 hex
+        have := (lt_iff_key x posInf).mpr ⟨hxn, isNaN_posInf, hk2⟩
+        rw [this] at hx2; cases hx2
+      rw [key_posInf] at this
+      have hyk : x.key = posInf.key := by rw [key_posInf]; omega
+      have : x = posInf := eq_of_key_eq hyk (by rw [hyk, key_posInf]; decide)
+      rw [hmin, ← this]; exact hx
+  · by_cases hlt : ∃ y ∈ l, F64.lt negInf y = true
+    · exact a10 hlt
     · have hall : ∀ y ∈ l, F64.lt NumF.new.max y = false := by
         intro y hy
         cases h : F64.lt NumF.new.max y
         · rfl
-        · exact absurd ⟨y, hy, h⟩ hex
-      have hmax : (runFv keep l).max = F64.neg maxF64 := max_unchanged keep l NumF.new hall
-      obtain ⟨y, l', rfl⟩ := List.exists_cons_of_ne_nil hne
-      have hy := hf y (by simp)
-      have hk := finite_key_bounds hy
-      have hlt := hall y (by simp)
-      rw [e2] at hlt
-      have : ¬ ((F64.neg maxF64).key < y.key) := by
+        · exact absurd ⟨y, hy, h⟩ hlt
+      have hmax : (runFv keep l).max = negInf := max_unchanged keep l NumF.new hall
+      have hx2 := hall x hx
+      rw [e2] at hx2
+      have : ¬ (negInf.key < x.key) := by
         intro hk2
-        have := (lt_iff_key (F64.neg maxF64) y).mpr ⟨isNaN_negMaxF64, not_nan_of_finite hy, hk2⟩
-        rw [this] at hlt; cases hlt
-      rw [key_negMaxF64] at this
-      have hyk : y.key = (F64.neg maxF64).key := by rw [key_negMaxF64]; omega
-      have : y = F64.neg maxF64 := eq_of_key_eq hyk (by rw [hyk, key_negMaxF64]; decide)
-      rw [hmax, ← this]; simp
+        have := (lt_iff_key negInf x).mpr ⟨isNaN_negInf, hxn, hk2⟩
+        rw [this] at hx2; cases hx2
+      rw [key_negInf] at this
+      have hyk : x.key = negInf.key := by rw [key_negInf]; omega
+      have : x = negInf := eq_of_key_eq hyk (by rw [hyk, key_negInf]; decide)
+      rw [hmax, ← this]; exact hx
 
 theorem length_filterMap_add_countP {α β : Type} (f : α → Option β) (l : List α) :
     (l.filterMap f).length + l.countP (fun e => (f e).isNone) = l.length := by
